@@ -45,12 +45,13 @@ Record tables := mkT {
   tdefs : list defn;            (* suds.transport.options.Options definitions *)
   isa : list (N * list N);      (* value tag -> definition classes it is an instance of *)
   clsT : N;                     (* suds.transport.Transport *)
-  ddist : bool                  (* the two domain names differ *)
+  ddist : bool;                 (* the two domain names differ *)
+  hdrs : list (N * list (N * N)) (* dict value identity -> its (header name, value) entries, in order *)
 }.
 
 Definition gen_tables : tables :=
   mkT C14Tables.client_defs C14Tables.transport_defs C14Tables.isa_tbl
-      C14Tables.cls_transport C14Tables.domains_distinct.
+      C14Tables.cls_transport C14Tables.domains_distinct C14Tables.header_pool.
 
 (* the option lists as documented (names and classes by the pinned numbering
    of tools/tables_c14.py):  1 cache:Cache  2 documentStore:DocumentStore
@@ -81,7 +82,11 @@ Definition pinned_tables : tables :=
    [(1, [3; 5]); (2, [5]); (3, [12]); (4, [6]); (5, []); (6, [11]); (7, [9]); (8, [10]);
     (9, []); (10, [1]); (11, [1]); (12, [2]); (13, [7]); (14, [8]); (15, [4]); (16, [4]);
     (17, [4]); (18, [4])]
-   4 true.
+   4 true
+   (* the dict values of the harness as header maps; header names (lower case): 1 content-type
+      2 soapaction (the two suds sets itself) 3 http 4 https 5 x-a 6 x-b; value 0 = suds' own *)
+   [(0, []); (1, [(3, 11)]); (2, [(5, 4)]); (3, [(5, 5); (6, 6)]); (4, [(4, 9); (3, 10)]);
+    (5, [(1, 8)]); (6, [(1, 7); (2, 2)]); (7, [(2, 3); (5, 4)]); (8, [(1, 12); (2, 1)])].
 
 Definition name_transport : N := 6.
 Definition name_proxy : N := 31.
@@ -214,8 +219,34 @@ Definition creds_of (tag : N) (u p : out) : list N :=
   | _, _ => [code_out (OVal vnone); code_out (OVal vnone)]
   end.
 
+(* _SoapClient.__headers: result = {Content-Type: ..., SOAPAction: ...};
+   result.update(options.headers).  Header names are compared without case
+   (urllib capitalises them; of several spellings the last one is sent), a
+   header map is kept sorted by name. *)
+Fixpoint put_hdr (k v : N) (l : list (N * N)) : list (N * N) :=
+  match l with
+  | [] => [(k, v)]
+  | (k', v') :: r =>
+      if k <? k' then (k, v) :: l
+      else if N.eqb k k' then (k, v) :: r
+      else (k', v') :: put_hdr k v r
+  end.
+Definition hdr_content_type : N := 1.
+Definition hdr_soapaction : N := 2.
+Definition hdr_defaults : list (N * N) := [(hdr_content_type, 0); (hdr_soapaction, 0)].
+Definition soap_headers (opt : list (N * N)) : list (N * N) :=
+  fold_left (fun acc kv => put_hdr (fst kv) (snd kv) acc) opt hdr_defaults.
+Definition hdr_codes (l : list (N * N)) : list N := flat_map (fun kv => [fst kv; snd kv]) l.
+
 Section WithTables.
 Variable T : tables.
+
+(* the entries of the dict an option read returned *)
+Definition hdr_entries (o : out) : list (N * N) :=
+  match o with
+  | OVal v => match assocN (snd v) (hdrs T) with Some l => l | None => [] end
+  | _ => []
+  end.
 
 Definition defs_of (n : node) : list defn :=
   match n with NC _ => cdefs T | NT _ _ => tdefs T end.
@@ -409,12 +440,14 @@ Definition tuse (st : state) (t : node) (tag : N) : list N :=
   ++ creds_of tag (get st t name_username) (get st t name_password).
 
 (* a send through client c: the transport object stored in the client's
-   options; the client adds self.options.headers to the request *)
+   options; the client hands it its own Content-Type and SOAPAction updated
+   with self.options.headers *)
 Definition use (st : state) (c : N) : out :=
   match get st (NC c) name_transport with
   | OVal tv =>
       if is_transport tv then
-        OW (code_out (get st (NC c) name_headers) :: tuse st (tnode tv) (fst tv))
+        OW (tuse st (tnode tv) (fst tv)
+            ++ hdr_codes (soap_headers (hdr_entries (get st (NC c) name_headers))))
       else OAttrErr
   | o => o
   end.
@@ -564,7 +597,8 @@ Definition stuse (ss : sstate) (t : node) (tag : N) : list N :=
 Definition suse (ss : sstate) (c : N) : out :=
   let tv := sval ss (NC c) name_transport in
   if is_transport tv then
-    OW (code_out (sget ss (NC c) name_headers) :: stuse ss (tnode tv) (fst tv))
+    OW (stuse ss (tnode tv) (fst tv)
+        ++ hdr_codes (soap_headers (hdr_entries (sget ss (NC c) name_headers))))
   else OAttrErr.
 
 Definition svexists (ss : sstate) (v : val) : bool :=
